@@ -22,7 +22,8 @@ Quirks of the Go kept on purpose (DESIGN App. B):
   * `scanning` latches, also when the fetch that follows fails;
   * a `Connected` arriving while the retry queue is non-empty is stashed behind it;
   * `Disconnected` truncates the retry queue at that block, and is otherwise ignored unless it names `cur`;
-  * a rewind walks `PrevBlock` of the rescan's own header and cancels the subscription; the retry queue
+  * a rewind walks `PrevBlock` of the rescan's own header (`GetBlockHeader` by hash: it fails, and the rescan ends, when
+    that parent has been reorganised out of the header store) and cancels the subscription; the retry queue
     is only cleared at the next `Subscribe`; `Subscribe(h)` with `h` above the best height is an error.
 Not modelled: `EndBlock`, `waitForBlocks` (harness starts at/below the tip of a current chain), the
 zero-outpoint script match of `spendsWatchedInput`, `txIDs` updates (no exported option), `ErrHashNotFound`.
@@ -217,7 +218,7 @@ def rewindLoop (W : World) (r : Nat) (quiet : Bool) : Nat → St → Bool → St
     if s.curH > r then
       let cb := if quiet then [] else [Cb.disc s.curH s.cur]
       let p := W.prev s.cur
-      if p == 0 then (s, cb, true, true)                  -- GetBlockHeader(zero hash) fails
+      if !s.chain.contains p then (s, cb, true, true)     -- GetBlockHeader: the header store only knows the best chain
       else
         let x := rewindLoop W r quiet n { s with cur := p, curH := W.height p } true
         (x.1, cb ++ x.2.1, x.2.2.1, x.2.2.2)
